@@ -201,8 +201,13 @@ def check_history(res, h, exp_keys, exp_terminal, T, feats, case):
             sym = 'objects-extra'
         else:
             sym = 'objects-differ'
-        res.witness(sym, feats, case, 'got %d objects (terminal %s), expected %d (terminal %s); log tail %r' % (
-            len(got_keys), h['terminal'], len(exp_keys), exp_terminal, h['log_tail']))
+        first = ''
+        for i, (g, e_) in enumerate(zip(got_keys, exp_keys)):
+            if g != e_:
+                first = '; object %d: got %s expected %s' % (i, repr(g)[:400], repr(e_)[:400])
+                break
+        res.witness(sym, feats, case, 'got %d objects (terminal %s), expected %d (terminal %s); log tail %r%s' % (
+            len(got_keys), h['terminal'], len(exp_keys), exp_terminal, h['log_tail'], first))
         return False
     if h['terminal'] != exp_terminal and 'damaged' in feats and \
             library_error(h['terminal']) and library_error(exp_terminal):
